@@ -326,12 +326,13 @@ def lemma_postfix_on_primaries(k: int, post: int, jr: int) -> bool:
     return _postfix_primaries(k, post, 2, [0, 7, 13][jr])       # * < ??
 
 
-def lemma_postfix_on_primaries_full(k: int, post: int, u: int, j: int) -> bool:
+def lemma_postfix_on_primaries_full(k: int, post: int, ui: int, jr: int) -> bool:
     """
-    pre: 0 <= k < NPRIM and 0 <= post <= 4 and 0 <= u <= 3 and 0 <= j < NB
+    pre: 0 <= k < NPRIM and 0 <= post <= 4 and 0 <= ui < 3 and 0 <= jr < 6
     post: __return__
     """
-    return _postfix_primaries(k, post, u, j)
+    # thorough tier: no prefix / minus / not  x  one operator per precedence level
+    return _postfix_primaries(k, post, [0, 2, 3][ui], REPS[jr])
 
 
 def lemma_postfix_inside(k: int, post: int, where: int) -> bool:
